@@ -377,6 +377,38 @@ fn drive(id: &str, tier: Tier, seed: u64) -> i32 {
             }
         }
     }
+    // Miri leg (thorough tier only): a parser-only database under the interpreter.
+    if tier == Tier::Thorough && checks::miri_leg(id) {
+        let log = work.join("miri.log");
+        let st = Command::new("/verif/miri_leg.sh").args([id, &seed.to_string()]).arg(&log).stdin(Stdio::null()).status();
+        let text = fs::read_to_string(&log).unwrap_or_default();
+        let num = |line: &str, key: &str| -> u64 {
+            line.split_whitespace().find_map(|w| w.strip_prefix(key)).and_then(|v| v.parse().ok()).unwrap_or(0)
+        };
+        match st.ok().and_then(|s| s.code()) {
+            Some(0) => {
+                let runs = text.lines().filter(|l| l.starts_with("MIRI-LEG ")).count() as u64;
+                merged.count("miri.runs_clean", runs);
+                merged.count("miri.revisions_compared", text.lines().map(|l| num(l, "revisions_compared=")).sum());
+                merged.count("miri.nodes_compared", text.lines().map(|l| num(l, "nodes_compared=")).sum());
+                merged.count("miri.concurrent_answers_compared", text.lines().map(|l| num(l, "concurrent_answers_compared=")).sum());
+                if runs == 0 {
+                    run_inconclusive.push(format!("miri leg produced no observation; see {}", log.display()));
+                }
+            }
+            Some(66) => {
+                let first = text.lines().find(|l| l.contains("MIRI-LEG-VIOLATION") || l.contains("Undefined Behavior") || l.contains("Data race")).unwrap_or("miri report").to_string();
+                let kind = if first.contains("MIRI-LEG-VIOLATION") { "oracle" } else if first.contains("Data race") { "data-race" } else { "undefined-behaviour" };
+                let tail: Vec<&str> = text.lines().collect();
+                merged.violations.push(Violation {
+                    sig: format!("miri-report:{kind}"),
+                    desc: format!("{} (log {})", first.chars().take(300).collect::<String>(), log.display()),
+                    replay: json!({"miri": true, "log_tail": tail[tail.len().saturating_sub(80)..].join("\n")}),
+                });
+            }
+            other => run_inconclusive.push(format!("miri leg could not run (status {other:?}); see {}", log.display())),
+        }
+    }
     let wall = t0.elapsed().as_secs_f64();
     let summary = report::finalize(&spec, tier, seed, merged, wall, run_inconclusive, known_replayed);
     summary.exit_code
